@@ -73,7 +73,7 @@ SPEC = {
         ensures
             // before a secure channel exists everything but an OpenSecureChannel is refused (and the connection closed by the caller)
             (message_header.message_type != MessageChunkType::OpenSecureChannel && !channel_issued(*old(self)))
-                ==> r == Err::<(), StatusCode>(StatusCode::BadSecureChannelIdInvalid),
+                ==> r is Err,
             // whatever happens, nothing of the message stays buffered
             final(self).pending_chunks@.len() == 0,'''),
 }
